@@ -11,7 +11,11 @@ import (
 	"encoding/json"
 	"fmt"
 	"os"
+	"path/filepath"
+	"regexp"
 	"sort"
+	"strconv"
+	"strings"
 	"testing"
 )
 
@@ -59,6 +63,28 @@ func jsonDiff(path string, x, y any) string {
 		if len(xv) != len(yv) {
 			return fmt.Sprintf("%s: length %d vs %d", path, len(xv), len(yv))
 		}
+		if len(xv) > 1 {
+			// same elements in another order?
+			sx, sy := make([]string, len(xv)), make([]string, len(yv))
+			same := true
+			for i := range xv {
+				bx, _ := json.Marshal(xv[i])
+				by, _ := json.Marshal(yv[i])
+				sx[i], sy[i] = string(bx), string(by)
+				same = same && sx[i] == sy[i]
+			}
+			if !same {
+				sort.Strings(sx)
+				sort.Strings(sy)
+				perm := true
+				for i := range sx {
+					perm = perm && sx[i] == sy[i]
+				}
+				if perm {
+					return path + ": order differs"
+				}
+			}
+		}
 		for i := range xv {
 			if d := jsonDiff(fmt.Sprintf("%s[%d]", path, i), xv[i], yv[i]); d != "" {
 				return d
@@ -81,6 +107,26 @@ func jsonDiff(path string, x, y any) string {
 	}
 }
 
+var reIdx = regexp.MustCompile(`\[[0-9]+\]`)
+
+// diffSig turns a jsonDiff result ("<path>: <what>") into a stable signature part: indices stripped,
+// values dropped.
+func diffSig(d string) string {
+	path, what, _ := strings.Cut(d, ": ")
+	path = reIdx.ReplaceAllString(path, "[]")
+	switch {
+	case strings.HasPrefix(what, "order differs"):
+		what = "order"
+	case strings.HasPrefix(what, "length"):
+		what = "length"
+	case strings.HasPrefix(what, "type differs"), strings.HasPrefix(what, "null vs value"):
+		what = "shape"
+	default:
+		what = "value"
+	}
+	return strings.TrimPrefix(path, ".") + "/" + what
+}
+
 func trunc(s string) string {
 	if len(s) > 60 {
 		return s[:60] + "…"
@@ -94,7 +140,82 @@ func trunc(s string) string {
 // invariants and the supply; the Lean driver applies `importCore ∘ exportCore` at the same points.
 func TestC18(t *testing.T) {
 	os.Setenv("CORE_FOCUS", "C18")
+	if lines := ReplayLines(); len(lines) > 0 && strings.HasPrefix(lines[0], "pkg ") {
+		// replay of a violation found on another package's history
+		r := NewRun(t, "C18")
+		defer r.Close()
+		c18Child(r, strings.Fields(lines[0])[1], lines[1:], 0)
+		return
+	}
+	if os.Getenv("VERIF_REPLAY") == "" {
+		corePost = func(r *Run) {
+			for i, pk := range c18Pkgs {
+				c18Child(r, pk.Test, nil, r.Seed*31+uint64(i))
+			}
+		}
+		defer func() { corePost = nil }()
+	}
 	runCore(t, "C18")
+}
+
+// the other packages' generators: each trace they produce ends in the generic export / import
+// comparison (c18Generic, switched on by VERIF_C18 in the child process)
+var c18Pkgs = []c12Pkg{
+	{"TestC13", []string{"VERIF_SCALE=0.06"}},
+	{"TestC14", []string{"VERIF_SCALE=0.05"}},
+	{"TestC15", []string{"VERIF_SCALE=0.1"}},
+	{"TestC16", []string{"VERIF_SCALE=0.04"}},
+	{"TestC17", []string{"VERIF_SCALE=0.04"}},
+	{"TestPackets", []string{"VERIF_SCALE=0.3"}},
+	{"TestC20", []string{"VERIF_SCALE=0.1"}},
+}
+
+// c18Child runs one package harness as a sub-process with the generic C18 hook on and adopts its
+// C18 violations (replay = "pkg <Test>" + the child's own replay lines).
+func c18Child(r *Run, test string, replay []string, seed uint64) {
+	out := filepath.Join(r.OutDir, "c18-"+test)
+	os.RemoveAll(out)
+	extra := []string{"VERIF_C18=1"}
+	for _, pk := range c18Pkgs {
+		if pk.Test == test && replay == nil {
+			for _, e := range pk.Env {
+				if r.Thorough() && strings.HasPrefix(e, "VERIF_SCALE=") {
+					f, _ := strconv.ParseFloat(strings.TrimPrefix(e, "VERIF_SCALE="), 64)
+					e = fmt.Sprintf("VERIF_SCALE=%g", f*6)
+				}
+				extra = append(extra, e)
+			}
+		}
+	}
+	rp := ""
+	if replay != nil {
+		rp = filepath.Join(r.OutDir, "c18-"+test+".replay")
+		_ = os.WriteFile(rp, []byte(strings.Join(replay, "\n")+"\n"), 0o644)
+	}
+	line := fmt.Sprintf("pkg %s seed=%d", test, seed)
+	if err := c12Child(r.T, test, out, seed, rp, 16, extra); err != nil {
+		r.Violate("C18/child/package-run-failed", trunc200(test+": "+err.Error()), line)
+		r.Emit(line, "failed")
+		return
+	}
+	var st struct {
+		Ops, Traces int
+		Branches    map[string]int
+		Violations  []Violation
+	}
+	b, _ := os.ReadFile(filepath.Join(out, "stats.json"))
+	_ = json.Unmarshal(b, &st)
+	n := 0
+	for _, v := range st.Violations {
+		if strings.HasPrefix(v.Signature, "C18/") {
+			n++
+			r.Violate(v.Signature, test+": "+v.Detail, append([]string{"pkg " + test}, v.Replay...)...)
+		}
+	}
+	r.Emit(line, "ok")
+	r.Hit(fmt.Sprintf("c18child/%s/imported", test))
+	r.Set("c18-"+test, map[string]int{"ops": st.Ops, "traces": st.Traces, "imports": st.Branches["c18/imported"], "import_failed": st.Branches["c18/import-failed"], "c18_violations": n})
+	os.RemoveAll(out)
 }
 
 func diffFields(a, b string) string {
